@@ -522,23 +522,22 @@ def rename_tree(t, ren):
 
 # ---------------------------------------------------------------------------
 def parse_edges(out, dot, undirected):
+    """the edge list of random_graph_gen's output: DOT (graph / digraph, read with the general DOT reader; node statements
+    carry no edges) or CSV lines `from,to`"""
     text = out.decode()
-    edges = []
     if dot:
-        lines = text.strip().split("\n")
-        head = "graph G {" if undirected else "digraph G {"
-        if not lines or lines[0] != head or lines[-1] != "}":
-            raise ValueError("not a %s" % head)
-        sep = " -- " if undirected else " -> "
-        for ln in lines[1:-1]:
-            a, b = ln.strip().split(sep)
-            edges.append([a, b])
-    else:
-        for ln in text.split("\n"):
-            if ln == "":
-                continue
-            a, b = ln.split(",")
-            edges.append([a, b])
+        from checks_cli import parse_dot
+        g = parse_dot(text, undirected=undirected)
+        return [[a, b] for a, b, _ in g["edges"]]
+    import csv
+    import io
+    edges = []
+    for row in csv.reader(io.StringIO(text)):
+        if not row:
+            continue
+        if len(row) != 2:
+            raise ValueError("edge line with %d fields: %r" % (len(row), row))
+        edges.append([row[0], row[1]])
     return edges
 
 
